@@ -18,6 +18,18 @@ theorem step_bodyStep (s : SfSt) (e : Nat) : step s (.bodyStep e) = stepBody s e
 theorem step_finish (s : SfSt) (e : Nat) : step s (.finish e) = stepFinish s e := rfl
 theorem step_cancel (s : SfSt) (c : Nat) : step s (.cancel c) = stepCancel s c := rfl
 theorem step_tick (s : SfSt) (d : Nat) : step s (.tick d) = { s with now := s.now + d } := rfl
+theorem step_rstep (s : SfSt) (r : Nat) : step s (.rstep r) = stepRBody s r := rfl
+theorem step_rfinish (s : SfSt) (r : Nat) : step s (.rfinish r) = stepRFinish s r := rfl
+
+theorem newExec_key (s : SfSt) (c key n : Nat) (o : Outcome) : (newExec s c key n o).key = key := by
+  unfold newExec hitExec
+  repeat' split
+  all_goals rfl
+
+theorem newExec_unfinished (s : SfSt) (c key n : Nat) (o : Outcome) : (newExec s c key n o).finished = false := by
+  unfold newExec hitExec
+  repeat' split
+  all_goals rfl
 
 /-- what a caller's state says about the execution it joined -/
 def CallerOk (x : Exec) (st : CSt) : Prop :=
@@ -36,7 +48,7 @@ structure Inv (s : SfSt) : Prop where
   /-- a caller that joined `e` is cancelled, or still waiting on the unfinished `e`, or holds exactly `e`'s outcome -/
   joined : ∀ c e st, s.callers c = some ⟨some e, st⟩ → ∃ x, s.execs e = some x ∧ CallerOk x st
 
-theorem inv_init (b : Bool) (T : Nat) : Inv (init b T) := by
+theorem inv_init (cfg : Cfg) : Inv (init cfg) := by
   constructor <;> simp [init]
 
 theorem deliver_apply (callers : Nat → Option Caller) (e : Nat) (o : Outcome) (c : Nat) :
@@ -111,9 +123,7 @@ theorem inv_call (s : SfSt) (h : Inv s) (c key n : Nat) (o : Outcome) : Inv (ste
         · subst hce
           simp only [if_true, Option.some.injEq] at he
           subst he
-          have hk : (newExec s key n o).key = key := by
-            unfold newExec; split <;> rfl
-          simp [hk]
+          simp [newExec_key]
         · simp only [hce, if_false] at he
           have := h.reg e x he hf
           by_cases hk : x.key = key
@@ -125,7 +135,7 @@ theorem inv_call (s : SfSt) (h : Inv s) (c key n : Nat) (o : Outcome) : Inv (ste
         · subst hkk
           simp only [if_true, Option.some.injEq] at hk
           subst hk
-          refine ⟨newExec s k n o, by simp, ?_, ?_⟩ <;> (unfold newExec; split <;> rfl)
+          refine ⟨newExec s c k n o, by simp, ?_, ?_⟩ <;> (first | exact newExec_key _ _ _ _ _ | exact newExec_unfinished _ _ _ _ _)
         · simp only [hkk, if_false] at hk
           obtain ⟨x, hx, hxk, hxf⟩ := h.tab k e hk
           have : e ≠ c := by
@@ -156,8 +166,8 @@ theorem inv_call (s : SfSt) (h : Inv s) (c key n : Nat) (o : Outcome) : Inv (ste
           subst h2
           have : c = e' := by simpa using h1
           subst this
-          refine ⟨newExec s key n o, by simp, Or.inr (Or.inl ⟨rfl, ?_⟩)⟩
-          unfold newExec; split <;> rfl
+          refine ⟨newExec s c key n o, by simp, Or.inr (Or.inl ⟨rfl, ?_⟩)⟩
+          first | exact newExec_key _ _ _ _ _ | exact newExec_unfinished _ _ _ _ _
         · simp only [hcc, if_false] at hc'
           obtain ⟨x, hx, hok⟩ := h.joined c' e' st hc'
           have : e' ≠ c := by
@@ -358,6 +368,22 @@ theorem inv_step (s : SfSt) (h : Inv s) (a : Act) : Inv (step s a) := by
   | finish e => exact inv_finish s h e
   | cancel c => exact inv_cancel s h c
   | tick d => exact ⟨h.reg, h.tab, h.fresh, h.mem, h.nodup, h.joined⟩
+  | rstep r =>
+    show Inv (stepRBody s r)
+    unfold stepRBody
+    split
+    · exact h
+    · split
+      · exact h
+      · exact ⟨h.reg, h.tab, h.fresh, h.mem, h.nodup, h.joined⟩
+  | rfinish r =>
+    show Inv (stepRFinish s r)
+    unfold stepRFinish
+    split
+    · exact h
+    · split
+      · exact h
+      · exact ⟨h.reg, h.tab, h.fresh, h.mem, h.nodup, h.joined⟩
 
 theorem inv_run (s : SfSt) (h : Inv s) (tr : List Act) : Inv (run s tr) := by
   induction tr generalizing s with
@@ -428,6 +454,48 @@ theorem bodyRunningB_imp (s : SfSt) (key e : Nat) (hb : bodyRunningB s key e = t
 
 /-! ### non-interference of a cancellation -/
 
+/-- the two states have the same `early` configuration, recalculations, recalculation table and lock keys -/
+def Rest (s1 s2 : SfSt) : Prop :=
+  s1.early = s2.early ∧ s1.earlyTtl = s2.earlyTtl ∧ s1.background = s2.background ∧ s1.guarded = s2.guarded ∧
+  s1.recalcSkip = s2.recalcSkip ∧ s1.recalcs = s2.recalcs ∧ s1.rtable = s2.rtable ∧ s1.lock = s2.lock ∧
+  s1.rcreated = s2.rcreated
+
+theorem Rest.early {s1 s2 : SfSt} (h : Rest s1 s2) : s1.early = s2.early := h.1
+theorem Rest.earlyTtl {s1 s2 : SfSt} (h : Rest s1 s2) : s1.earlyTtl = s2.earlyTtl := h.2.1
+theorem Rest.background {s1 s2 : SfSt} (h : Rest s1 s2) : s1.background = s2.background := h.2.2.1
+theorem Rest.guarded {s1 s2 : SfSt} (h : Rest s1 s2) : s1.guarded = s2.guarded := h.2.2.2.1
+theorem Rest.recalcSkip {s1 s2 : SfSt} (h : Rest s1 s2) : s1.recalcSkip = s2.recalcSkip := h.2.2.2.2.1
+theorem Rest.recalcs {s1 s2 : SfSt} (h : Rest s1 s2) : s1.recalcs = s2.recalcs := h.2.2.2.2.2.1
+theorem Rest.rtable {s1 s2 : SfSt} (h : Rest s1 s2) : s1.rtable = s2.rtable := h.2.2.2.2.2.2.1
+theorem Rest.lock {s1 s2 : SfSt} (h : Rest s1 s2) : s1.lock = s2.lock := h.2.2.2.2.2.2.2.1
+theorem Rest.rcreated {s1 s2 : SfSt} (h : Rest s1 s2) : s1.rcreated = s2.rcreated := h.2.2.2.2.2.2.2.2
+
+theorem look_congr (s1 s2 : SfSt) (hca : s1.caching = s2.caching) (hcd : s1.cached = s2.cached) (hnw : s1.now = s2.now)
+    (hr : Rest s1 s2) (key : Nat) : look s1 key = look s2 key := by
+  unfold look
+  rw [hca, hcd, hnw, hr.early]
+
+theorem spawns_congr (s1 s2 : SfSt) (hca : s1.caching = s2.caching) (hcd : s1.cached = s2.cached) (hnw : s1.now = s2.now)
+    (hr : Rest s1 s2) (key : Nat) : spawns s1 key = spawns s2 key := by
+  unfold spawns running lockHeld
+  rw [look_congr s1 s2 hca hcd hnw hr, hr.guarded, hr.rtable, hr.lock, hnw]
+
+theorem newExec_congr (s1 s2 : SfSt) (hca : s1.caching = s2.caching) (hcd : s1.cached = s2.cached) (hnw : s1.now = s2.now)
+    (hr : Rest s1 s2) (c key n : Nat) (o : Outcome) : newExec s1 c key n o = newExec s2 c key n o := by
+  unfold newExec running
+  rw [look_congr s1 s2 hca hcd hnw hr, spawns_congr s1 s2 hca hcd hnw hr, hr.guarded, hr.rtable, hr.recalcs, hr.background]
+
+theorem newRecalc_congr (s1 s2 : SfSt) (hr : Rest s1 s2) (key n : Nat) (o : Outcome) :
+    newRecalc s1 key n o = newRecalc s2 key n o := by
+  unfold newRecalc
+  rw [hr.recalcSkip]
+
+theorem blocked_congr (s1 s2 : SfSt) (hr : Rest s1 s2) (x : Exec) : blocked s1 x = blocked s2 x := by
+  unfold blocked
+  rw [hr.recalcs]
+
+theorem rest_refl (s : SfSt) : Rest s s := ⟨rfl, rfl, rfl, rfl, rfl, rfl, rfl, rfl, rfl⟩
+
 /-- two states that differ at most in the entry of caller `c`, who has made its call (or was cancelled) in both -/
 structure Agree (c : Nat) (s1 s2 : SfSt) : Prop where
   caching : s1.caching = s2.caching
@@ -440,6 +508,7 @@ structure Agree (c : Nat) (s1 s2 : SfSt) : Prop where
   here2 : s2.callers c ≠ none
   ttl : s1.ttl = s2.ttl
   now : s1.now = s2.now
+  rest : Rest s1 s2
 
 theorem stepCancel_frame (s : SfSt) (c : Nat) :
     (stepCancel s c).caching = s.caching ∧ (stepCancel s c).table = s.table ∧
@@ -467,6 +536,10 @@ theorem stepCancel_clock (s : SfSt) (c : Nat) : (stepCancel s c).ttl = s.ttl ∧
   unfold stepCancel
   split <;> exact ⟨rfl, rfl⟩
 
+theorem stepCancel_rest (s : SfSt) (c : Nat) : Rest (stepCancel s c) s := by
+  unfold stepCancel
+  split <;> exact rest_refl _
+
 theorem stepCall_used (s : SfSt) (c key n : Nat) (o : Outcome) (h : s.callers c ≠ none) : stepCall s c key n o = s := by
   unfold stepCall
   cases hh : s.callers c with
@@ -475,21 +548,21 @@ theorem stepCall_used (s : SfSt) (c key n : Nat) (o : Outcome) (h : s.callers c 
 
 theorem agree_call (c : Nat) (s1 s2 : SfSt) (h : Agree c s1 s2) (c' key n : Nat) (o : Outcome) :
     Agree c (stepCall s1 c' key n o) (stepCall s2 c' key n o) := by
-  obtain ⟨hca, ht, he, hcd, hcr, ho, h1, h2, htt, hnw⟩ := h
+  obtain ⟨hca, ht, he, hcd, hcr, ho, h1, h2, htt, hnw, hr⟩ := h
   by_cases hcc : c' = c
   · subst hcc
     rw [stepCall_used s1 c' key n o h1, stepCall_used s2 c' key n o h2]
-    exact ⟨hca, ht, he, hcd, hcr, ho, h1, h2, htt, hnw⟩
+    exact ⟨hca, ht, he, hcd, hcr, ho, h1, h2, htt, hnw, hr⟩
   · have hsame := ho c' hcc
     unfold stepCall
     rw [← hsame, ← ht]
     cases hh : s1.callers c' with
-    | some _ => exact ⟨hca, ht, he, hcd, hcr, ho, h1, h2, htt, hnw⟩
+    | some _ => exact ⟨hca, ht, he, hcd, hcr, ho, h1, h2, htt, hnw, hr⟩
     | none =>
       cases hk : s1.table key with
       | some e =>
         dsimp only
-        refine ⟨hca, rfl, he, hcd, hcr, ?_, ?_, ?_, htt, hnw⟩
+        refine ⟨hca, rfl, he, hcd, hcr, ?_, ?_, ?_, htt, hnw, hr⟩
         · intro c'' hc''
           simp only [upd_apply]
           split
@@ -498,10 +571,17 @@ theorem agree_call (c : Nat) (s1 s2 : SfSt) (h : Agree c s1 s2) (c' key n : Nat)
         · simp only [upd_apply]; split <;> simp [h1]
         · simp only [upd_apply]; split <;> simp [h2]
       | none =>
-        have hne : newExec s1 key n o = newExec s2 key n o := by
-          unfold newExec lookupCached; rw [hca, hcd, hnw]
+        have hne : newExec s1 c' key n o = newExec s2 c' key n o := newExec_congr s1 s2 hca hcd hnw hr c' key n o
+        have hsp : spawns s1 key = spawns s2 key := spawns_congr s1 s2 hca hcd hnw hr key
+        have hnr : newRecalc s1 key n o = newRecalc s2 key n o := newRecalc_congr s1 s2 hr key n o
         dsimp only
-        refine ⟨hca, ?_, ?_, hcd, ?_, ?_, ?_, ?_, htt, hnw⟩
+        refine ⟨hca, ?_, ?_, hcd, ?_, ?_, ?_, ?_, htt, hnw,
+          ⟨hr.early, hr.earlyTtl, hr.background, hr.guarded, hr.recalcSkip, ?_, ?_, ?_, ?_⟩⟩
+        rotate_right 4
+        · dsimp only; rw [hsp, hnr, hr.recalcs]
+        · dsimp only; rw [hsp, hr.rtable]
+        · dsimp only; rw [hsp, hr.lock, hnw, hr.earlyTtl]
+        · dsimp only; rw [hsp, hr.rcreated]
         · first | rfl | simp only [ht]
         · first | rfl | simp only [he, hne]
         · first | rfl | simp only [hcr]
@@ -515,29 +595,30 @@ theorem agree_call (c : Nat) (s1 s2 : SfSt) (h : Agree c s1 s2) (c' key n : Nat)
 
 theorem agree_body (c : Nat) (s1 s2 : SfSt) (h : Agree c s1 s2) (e : Nat) :
     Agree c (stepBody s1 e) (stepBody s2 e) := by
-  obtain ⟨hca, ht, he, hcd, hcr, ho, h1, h2, htt, hnw⟩ := h
+  obtain ⟨hca, ht, he, hcd, hcr, ho, h1, h2, htt, hnw, hr⟩ := h
   unfold stepBody
   rw [← he]
   cases hx : s1.execs e with
-  | none => exact ⟨hca, ht, he, hcd, hcr, ho, h1, h2, htt, hnw⟩
+  | none => exact ⟨hca, ht, he, hcd, hcr, ho, h1, h2, htt, hnw, hr⟩
   | some x =>
     simp only
     split
-    · exact ⟨hca, ht, he, hcd, hcr, ho, h1, h2, htt, hnw⟩
-    · exact ⟨hca, ht, by first | rfl | simp only [he], hcd, hcr, ho, h1, h2, htt, hnw⟩
+    · exact ⟨hca, ht, he, hcd, hcr, ho, h1, h2, htt, hnw, hr⟩
+    · exact ⟨hca, ht, by first | rfl | simp only [he], hcd, hcr, ho, h1, h2, htt, hnw, hr⟩
 
 theorem agree_finish (c : Nat) (s1 s2 : SfSt) (h : Agree c s1 s2) (e : Nat) :
     Agree c (stepFinish s1 e) (stepFinish s2 e) := by
-  obtain ⟨hca, ht, he, hcd, hcr, ho, h1, h2, htt, hnw⟩ := h
+  obtain ⟨hca, ht, he, hcd, hcr, ho, h1, h2, htt, hnw, hr⟩ := h
   unfold stepFinish
   rw [← he]
   cases hx : s1.execs e with
-  | none => exact ⟨hca, ht, he, hcd, hcr, ho, h1, h2, htt, hnw⟩
+  | none => exact ⟨hca, ht, he, hcd, hcr, ho, h1, h2, htt, hnw, hr⟩
   | some x =>
     simp only
+    rw [← blocked_congr s1 s2 hr x]
     split
-    · exact ⟨hca, ht, he, hcd, hcr, ho, h1, h2, htt, hnw⟩
-    · refine ⟨hca, by first | rfl | simp only [ht], by first | rfl | simp only [he], by first | rfl | simp only [hca, hcd, htt, hnw], hcr, ?_, ?_, ?_, htt, hnw⟩
+    · exact ⟨hca, ht, he, hcd, hcr, ho, h1, h2, htt, hnw, hr⟩
+    · refine ⟨hca, by first | rfl | simp only [ht], by first | rfl | simp only [he], by first | rfl | simp only [hca, hcd, htt, hnw, hr.earlyTtl], hcr, ?_, ?_, ?_, htt, hnw, hr⟩
       · intro c' hc'
         simp only [deliver_apply]
         rw [ho c' hc']
@@ -558,17 +639,23 @@ theorem stepCancel_other (s : SfSt) (c c' : Nat) (_h : c' ≠ c) (hc : s.callers
 
 theorem agree_cancel (c : Nat) (s1 s2 : SfSt) (h : Agree c s1 s2) (c' : Nat) :
     Agree c (stepCancel s1 c') (stepCancel s2 c') := by
-  obtain ⟨hca, ht, he, hcd, hcr, ho, h1, h2, htt, hnw⟩ := h
+  obtain ⟨hca, ht, he, hcd, hcr, ho, h1, h2, htt, hnw, hr⟩ := h
   obtain ⟨a3, a4, a5, a6, a7, a2, a1⟩ := stepCancel_frame s1 c'
   obtain ⟨b3, b4, b5, b6, b7, b2, b1⟩ := stepCancel_frame s2 c'
   obtain ⟨a8, a9⟩ := stepCancel_clock s1 c'
   obtain ⟨b8, b9⟩ := stepCancel_clock s2 c'
+  have hr' : Rest (stepCancel s1 c') (stepCancel s2 c') := by
+    obtain ⟨p1, p2, p3, p4, p5, p6, p7, p8, p9⟩ := stepCancel_rest s1 c'
+    obtain ⟨q1, q2, q3, q4, q5, q6, q7, q8, q9⟩ := stepCancel_rest s2 c'
+    exact ⟨by rw [p1, q1, hr.early], by rw [p2, q2, hr.earlyTtl], by rw [p3, q3, hr.background], by rw [p4, q4, hr.guarded],
+      by rw [p5, q5, hr.recalcSkip], by rw [p6, q6, hr.recalcs], by rw [p7, q7, hr.rtable], by rw [p8, q8, hr.lock],
+      by rw [p9, q9, hr.rcreated]⟩
   by_cases hcc : c' = c
   · subst hcc
     exact ⟨by rw [a3, b3, hca], by rw [a4, b4, ht], by rw [a5, b5, he], by rw [a6, b6, hcd], by rw [a7, b7, hcr],
-      fun c'' hc'' => by rw [a2 c'' hc'', b2 c'' hc'', ho c'' hc''], a1, b1, by rw [a8, b8, htt], by rw [a9, b9, hnw]⟩
+      fun c'' hc'' => by rw [a2 c'' hc'', b2 c'' hc'', ho c'' hc''], a1, b1, by rw [a8, b8, htt], by rw [a9, b9, hnw], hr'⟩
   · refine ⟨by rw [a3, b3, hca], by rw [a4, b4, ht], by rw [a5, b5, he], by rw [a6, b6, hcd], by rw [a7, b7, hcr],
-      ?_, stepCancel_other s1 c c' hcc h1, stepCancel_other s2 c c' hcc h2, by rw [a8, b8, htt], by rw [a9, b9, hnw]⟩
+      ?_, stepCancel_other s1 c c' hcc h1, stepCancel_other s2 c c' hcc h2, by rw [a8, b8, htt], by rw [a9, b9, hnw], hr'⟩
     intro c'' hc''
     by_cases h3 : c'' = c'
     · subst h3
@@ -585,26 +672,73 @@ theorem agree_step (c : Nat) (s1 s2 : SfSt) (h : Agree c s1 s2) (a : Act) : Agre
   | finish e => exact agree_finish c s1 s2 h e
   | cancel c' => exact agree_cancel c s1 s2 h c'
   | tick d =>
-    obtain ⟨hca, ht, he, hcd, hcr, ho, h1, h2, htt, hnw⟩ := h
-    exact ⟨hca, ht, he, hcd, hcr, ho, h1, h2, htt, by show s1.now + d = s2.now + d; rw [hnw]⟩
+    obtain ⟨hca, ht, he, hcd, hcr, ho, h1, h2, htt, hnw, hr⟩ := h
+    exact ⟨hca, ht, he, hcd, hcr, ho, h1, h2, htt, by show s1.now + d = s2.now + d; rw [hnw], hr⟩
+  | rstep r =>
+    obtain ⟨hca, ht, he, hcd, hcr, ho, h1, h2, htt, hnw, hr⟩ := h
+    show Agree c (stepRBody s1 r) (stepRBody s2 r)
+    unfold stepRBody
+    rw [← hr.recalcs]
+    cases s1.recalcs r with
+    | none => exact ⟨hca, ht, he, hcd, hcr, ho, h1, h2, htt, hnw, hr⟩
+    | some y =>
+      dsimp only
+      split
+      · exact ⟨hca, ht, he, hcd, hcr, ho, h1, h2, htt, hnw, hr⟩
+      · exact ⟨hca, ht, he, hcd, hcr, ho, h1, h2, htt, hnw,
+          ⟨hr.early, hr.earlyTtl, hr.background, hr.guarded, hr.recalcSkip, rfl, hr.rtable, hr.lock, hr.rcreated⟩⟩
+  | rfinish r =>
+    obtain ⟨hca, ht, he, hcd, hcr, ho, h1, h2, htt, hnw, hr⟩ := h
+    show Agree c (stepRFinish s1 r) (stepRFinish s2 r)
+    unfold stepRFinish
+    rw [← hr.recalcs]
+    cases s1.recalcs r with
+    | none => exact ⟨hca, ht, he, hcd, hcr, ho, h1, h2, htt, hnw, hr⟩
+    | some y =>
+      dsimp only
+      split
+      · exact ⟨hca, ht, he, hcd, hcr, ho, h1, h2, htt, hnw, hr⟩
+      · refine ⟨hca, ht, he, ?_, hcr, ho, h1, h2, htt, hnw,
+          ⟨hr.early, hr.earlyTtl, hr.background, hr.guarded, hr.recalcSkip, rfl, ?_, ?_, hr.rcreated⟩⟩
+        · dsimp only; rw [hcd, hnw, htt, hr.earlyTtl]
+        · dsimp only; rw [hr.rtable]
+        · dsimp only; rw [hr.lock]
 
 theorem agree_run (c : Nat) (s1 s2 : SfSt) (h : Agree c s1 s2) (tr : List Act) : Agree c (run s1 tr) (run s2 tr) := by
   induction tr generalizing s1 s2 with
   | nil => exact h
   | cons a tr ih => exact ih _ _ (agree_step c s1 s2 h a)
 
+/-- a step of a recalculation's body touches nothing of single-flight proper -/
+theorem stepRBody_frame (s : SfSt) (r : Nat) :
+    (stepRBody s r).execs = s.execs ∧ (stepRBody s r).callers = s.callers ∧ (stepRBody s r).table = s.table ∧
+    (stepRBody s r).created = s.created ∧ (stepRBody s r).caching = s.caching ∧ (stepRBody s r).cached = s.cached := by
+  unfold stepRBody
+  split
+  · exact ⟨rfl, rfl, rfl, rfl, rfl, rfl⟩
+  · split <;> exact ⟨rfl, rfl, rfl, rfl, rfl, rfl⟩
+
+/-- the end of a recalculation touches no execution, no caller and not `tasks` -/
+theorem stepRFinish_frame (s : SfSt) (r : Nat) :
+    (stepRFinish s r).execs = s.execs ∧ (stepRFinish s r).callers = s.callers ∧ (stepRFinish s r).table = s.table ∧
+    (stepRFinish s r).created = s.created ∧ (stepRFinish s r).caching = s.caching := by
+  unfold stepRFinish
+  split
+  · exact ⟨rfl, rfl, rfl, rfl, rfl⟩
+  · split <;> exact ⟨rfl, rfl, rfl, rfl, rfl⟩
+
 /-! ### scripts are fixed at creation; settled callers stay settled -/
 
 /-- `x'` is a later stage of the same execution as `x` -/
 def Exec.Later (x x' : Exec) : Prop :=
   x'.key = x.key ∧ x'.outcome = x.outcome ∧ x'.hit = x.hit ∧ (x.finished = true → x'.finished = true) ∧
-  x'.remaining ≤ x.remaining
+  x'.remaining ≤ x.remaining ∧ x'.waitsOn = x.waitsOn
 
-theorem Exec.later_refl (x : Exec) : Exec.Later x x := ⟨rfl, rfl, rfl, id, Nat.le_refl _⟩
+theorem Exec.later_refl (x : Exec) : Exec.Later x x := ⟨rfl, rfl, rfl, id, Nat.le_refl _, rfl⟩
 
 theorem Exec.later_trans {x y z : Exec} (a : Exec.Later x y) (b : Exec.Later y z) : Exec.Later x z :=
   ⟨b.1.trans a.1, b.2.1.trans a.2.1, b.2.2.1.trans a.2.2.1, fun h => b.2.2.2.1 (a.2.2.2.1 h),
-   Nat.le_trans b.2.2.2.2 a.2.2.2.2⟩
+   Nat.le_trans b.2.2.2.2.1 a.2.2.2.2.1, b.2.2.2.2.2.trans a.2.2.2.2.2⟩
 
 theorem exec_step (s : SfSt) (h : Inv s) (a : Act) (e : Nat) (x : Exec) (hx : s.execs e = some x) :
     ∃ x', (step s a).execs e = some x' ∧ Exec.Later x x' := by
@@ -634,7 +768,7 @@ theorem exec_step (s : SfSt) (h : Inv s) (a : Act) (e : Nat) (x : Exec) (hx : s.
           rw [hx] at hy
           simp only [Option.some.injEq] at hy
           subst hy
-          exact ⟨_, if_pos rfl, rfl, rfl, rfl, id, Nat.sub_le _ _⟩
+          exact ⟨_, if_pos rfl, rfl, rfl, rfl, id, Nat.sub_le _ _, rfl⟩
         · exact ⟨x, by simp [upd_apply, hee, hx], Exec.later_refl x⟩
   | finish e' =>
     show ∃ x', (stepFinish s e').execs e = some x' ∧ _
@@ -649,12 +783,15 @@ theorem exec_step (s : SfSt) (h : Inv s) (a : Act) (e : Nat) (x : Exec) (hx : s.
           rw [hx] at hy
           simp only [Option.some.injEq] at hy
           subst hy
-          exact ⟨_, if_pos rfl, rfl, rfl, rfl, fun _ => rfl, Nat.le_refl _⟩
+          exact ⟨_, if_pos rfl, rfl, rfl, rfl, fun _ => rfl, Nat.le_refl _, rfl⟩
         · exact ⟨x, by simp [upd_apply, hee, hx], Exec.later_refl x⟩
   | cancel c =>
     have := (stepCancel_frame s c).2.2.1
     exact ⟨x, by show (stepCancel s c).execs e = some x; rw [this]; exact hx, Exec.later_refl x⟩
   | tick d => exact ⟨x, hx, Exec.later_refl x⟩
+  | rstep r => exact ⟨x, by show (stepRBody s r).execs e = some x; rw [(stepRBody_frame s r).1]; exact hx, Exec.later_refl x⟩
+  | rfinish r =>
+    exact ⟨x, by show (stepRFinish s r).execs e = some x; rw [(stepRFinish_frame s r).1]; exact hx, Exec.later_refl x⟩
 
 theorem exec_run (s : SfSt) (h : Inv s) (tr : List Act) (e : Nat) (x : Exec) (hx : s.execs e = some x) :
     ∃ x', (run s tr).execs e = some x' ∧ Exec.Later x x' := by
@@ -709,6 +846,8 @@ theorem settled_step (s : SfSt) (a : Act) (c : Nat) (e : Option Nat) (st : CSt)
     · rw [(stepCancel_frame s c').2.2.2.2.2.1 c hcc]
       exact hc
   | tick d => exact hc
+  | rstep r => show (stepRBody s r).callers c = _; rw [(stepRBody_frame s r).2.1]; exact hc
+  | rfinish r => show (stepRFinish s r).callers c = _; rw [(stepRFinish_frame s r).2.1]; exact hc
 
 theorem settled_run (s : SfSt) (tr : List Act) (c : Nat) (e : Option Nat) (st : CSt)
     (hc : s.callers c = some ⟨e, st⟩) (hst : st ≠ .waiting) : (run s tr).callers c = some ⟨e, st⟩ := by
@@ -764,8 +903,8 @@ theorem attach_step (s : SfSt) (h : Inv s) (a : Act) (c e : Nat) (st : CSt)
           obtain ⟨h1, _⟩ := hc0
           subst h1
           right
-          refine ⟨newExec s key n o, by simp, ?_⟩
-          unfold newExec; split <;> rfl
+          refine ⟨newExec s c key n o, by simp, ?_⟩
+          first | exact newExec_key _ _ _ _ _ | exact newExec_unfinished _ _ _ _ _
     · left
       rw [call_other_caller s c' c key n o hcc] at hc
       exact ⟨st, hc⟩
@@ -815,6 +954,14 @@ theorem attach_step (s : SfSt) (h : Inv s) (a : Act) (c e : Nat) (st : CSt)
     · rw [(stepCancel_frame s c').2.2.2.2.2.1 c hcc] at hc0
       exact ⟨st, hc0⟩
   | tick d => exact Or.inl ⟨st, hc⟩
+  | rstep r =>
+    have hc0 : (stepRBody s r).callers c = some ⟨some e, st⟩ := hc
+    rw [(stepRBody_frame s r).2.1] at hc0
+    exact Or.inl ⟨st, hc0⟩
+  | rfinish r =>
+    have hc0 : (stepRFinish s r).callers c = some ⟨some e, st⟩ := hc
+    rw [(stepRFinish_frame s r).2.1] at hc0
+    exact Or.inl ⟨st, hc0⟩
 
 /-- after an execution has finished nobody new is ever attached to it -/
 theorem finished_no_new_waiters (s : SfSt) (h : Inv s) (tr : List Act) (e : Nat) (x : Exec)
@@ -833,6 +980,615 @@ theorem finished_no_new_waiters (s : SfSt) (h : Inv s) (tr : List Act) (e : Nat)
       rw [hl.2.2.2.1 hf] at hzf
       simp at hzf
 
+/-! ### recalculations (`early`): one body per key, counting executions and recalculations -/
+
+/-- The invariant of the recalculation machinery (with the `recalculations` table, `guarded = true`). -/
+structure RInv (s : SfSt) : Prop where
+  /-- a running recalculation is registered under its key (`recalculations[_cache_key] = task` until the done-callback) -/
+  rreg : ∀ r y, s.recalcs r = some y → y.finished = false → s.rtable y.key = some r
+  /-- the table only holds running recalculations of that key -/
+  rtab : ∀ k r, s.rtable k = some r → ∃ y, s.recalcs r = some y ∧ y.key = k ∧ y.finished = false
+  /-- recalculation ids are ids of callers that have made their call -/
+  rfresh : ∀ r, s.recalcs r ≠ none → s.callers r ≠ none
+  rmem : ∀ r, r ∈ s.rcreated ↔ s.recalcs r ≠ none
+  rnodup : s.rcreated.Nodup
+  /-- an execution that runs a body and a running recalculation never have the same key -/
+  excl : ∀ e x r y, s.execs e = some x → x.finished = false → x.hit = false → s.recalcs r = some y →
+    y.finished = false → x.key ≠ y.key
+  /-- an execution that awaits a recalculation awaits one of its key and delivers exactly its outcome, after it ended -/
+  waits : ∀ e x r, s.execs e = some x → x.waitsOn = some r →
+    ∃ y, s.recalcs r = some y ∧ y.key = x.key ∧ y.outcome = x.outcome ∧ (x.finished = true → y.finished = true)
+  /-- recalculations exist only under a cache decorator -/
+  mode : ∀ r, s.recalcs r ≠ none → s.caching = true
+
+theorem rinv_init (cfg : Cfg) : RInv (init cfg) := by
+  constructor <;> simp [init]
+
+theorem guarded_step (s : SfSt) (a : Act) : (step s a).guarded = s.guarded := by
+  cases a with
+  | call c key n o =>
+    show (stepCall s c key n o).guarded = _
+    unfold stepCall
+    split
+    · rfl
+    · split <;> rfl
+  | bodyStep e =>
+    show (stepBody s e).guarded = _
+    unfold stepBody
+    split
+    · rfl
+    · split <;> rfl
+  | finish e =>
+    show (stepFinish s e).guarded = _
+    unfold stepFinish
+    split
+    · rfl
+    · split <;> rfl
+  | cancel c => exact (stepCancel_rest s c).guarded
+  | tick d => rfl
+  | rstep r =>
+    show (stepRBody s r).guarded = _
+    unfold stepRBody
+    split
+    · rfl
+    · split <;> rfl
+  | rfinish r =>
+    show (stepRFinish s r).guarded = _
+    unfold stepRFinish
+    split
+    · rfl
+    · split <;> rfl
+
+theorem guarded_run (s : SfSt) (tr : List Act) : (run s tr).guarded = s.guarded := by
+  induction tr generalizing s with
+  | nil => rfl
+  | cons a tr ih => rw [run_cons, ih, guarded_step]
+
+/-- a recalculation is started only when the table has none for the key -/
+theorem spawns_imp (s : SfSt) (key : Nat) (hg : s.guarded = true) (h : spawns s key = true) : s.rtable key = none := by
+  unfold spawns running at h
+  rw [hg] at h
+  split at h
+  · simp only [if_true, Bool.and_eq_true, Option.isNone_iff_eq_none] at h
+    exact h.1
+  · simp at h
+
+theorem look_ne_off (s : SfSt) (key : Nat) (hca : s.caching = true) : look s key ≠ .off := by
+  unfold look
+  rw [hca]
+  simp only [if_true]
+  split
+  · split
+    · split <;> simp
+    · simp
+  · simp
+
+/-- an execution that runs a body of its own starts no recalculation and found none in the table -/
+theorem newExec_body (s : SfSt) (c key n : Nat) (o : Outcome) (hg : s.guarded = true) (hca : s.caching = true)
+    (h : (newExec s c key n o).hit = false) : spawns s key = false ∧ s.rtable key = none := by
+  unfold newExec hitExec at h
+  unfold spawns
+  split at h
+  · rename_i hl
+    exact absurd hl (look_ne_off s key hca)
+  · simp at h
+  · split at h <;> simp at h
+  · rename_i hl
+    rw [hl]
+    refine ⟨rfl, ?_⟩
+    unfold running at h
+    rw [hg] at h
+    simp only [if_true] at h
+    split at h
+    · simp at h
+    · assumption
+
+/-- what an execution that awaits a recalculation awaits: the one it starts itself (foreground), or the one in the table -/
+theorem newExec_waits (s : SfSt) (c key n : Nat) (o : Outcome) (hg : s.guarded = true) (r : Nat)
+    (h : (newExec s c key n o).waitsOn = some r) :
+    (r = c ∧ spawns s key = true ∧ (newExec s c key n o).outcome = o) ∨
+    (s.rtable key = some r ∧ ∀ y, s.recalcs r = some y → (newExec s c key n o).outcome = y.outcome) := by
+  unfold newExec hitExec at h ⊢
+  split at h
+  · simp at h
+  · simp at h
+  · rename_i v hl
+    split at h
+    · rename_i hsp
+      simp only [Option.some.injEq] at h
+      left
+      rw [if_pos hsp]
+      exact ⟨h.symm, hsp.1, rfl⟩
+    · simp at h
+  · rename_i hl
+    unfold running at h ⊢
+    rw [hg] at h ⊢
+    simp only [if_true] at h ⊢
+    split at h
+    · rename_i r' hr'
+      simp only [Option.some.injEq] at h
+      subst h
+      right
+      rw [hr']
+      refine ⟨rfl, ?_⟩
+      intro y hy
+      dsimp only
+      rw [hy]
+    · simp at h
+
+theorem spawns_caching (s : SfSt) (key : Nat) (h : spawns s key = true) : s.caching = true := by
+  unfold spawns look at h
+  cases hc : s.caching with
+  | true => rfl
+  | false => rw [hc] at h; simp at h
+
+theorem rinv_call (s : SfSt) (h : Inv s) (hr : RInv s) (hg : s.guarded = true) (c key n : Nat) (o : Outcome) :
+    RInv (stepCall s c key n o) := by
+  unfold stepCall
+  split
+  · exact hr
+  · rename_i hc
+    split
+    · -- join: only the caller's entry changes
+      refine ⟨hr.rreg, hr.rtab, ?_, hr.rmem, hr.rnodup, hr.excl, hr.waits, hr.mode⟩
+      intro r hrr
+      simp only [upd_apply]
+      split
+      · simp
+      · exact hr.rfresh r hrr
+    · rename_i ht
+      have hec : s.execs c = none := by
+        cases hh : s.execs c with
+        | none => rfl
+        | some x => exact absurd hc (h.fresh c (by rw [hh]; simp))
+      have hrc : s.recalcs c = none := by
+        cases hh : s.recalcs c with
+        | none => rfl
+        | some x => exact absurd hc (hr.rfresh c (by rw [hh]; simp))
+      by_cases hsp : spawns s key = true
+      · -- a stale value, no recalculation running, lock free: the execution starts a recalculation
+        simp only [hsp, if_true]
+        have hrt : s.rtable key = none := spawns_imp s key hg hsp
+        refine ⟨?_, ?_, ?_, ?_, ?_, ?_, ?_, ?_⟩
+        · intro r y hy hyf
+          simp only [upd_apply] at hy ⊢
+          by_cases hrc' : r = c
+          · subst hrc'
+            simp only [if_true, Option.some.injEq] at hy
+            subst hy
+            simp [newRecalc]
+          · simp only [hrc', if_false] at hy
+            have := hr.rreg r y hy hyf
+            by_cases hk : y.key = key
+            · rw [hk, hrt] at this; simp at this
+            · simp [hk, this]
+        · intro k r hk
+          simp only [upd_apply] at hk ⊢
+          by_cases hkk : k = key
+          · subst hkk
+            simp only [if_true, Option.some.injEq] at hk
+            subst hk
+            exact ⟨newRecalc s k n o, by simp, rfl, rfl⟩
+          · simp only [hkk, if_false] at hk
+            obtain ⟨y, hy, hyk, hyf⟩ := hr.rtab k r hk
+            have : r ≠ c := by
+              intro hh; subst hh; rw [hrc] at hy; simp at hy
+            exact ⟨y, by simp [this, hy], hyk, hyf⟩
+        · intro r hrr
+          simp only [upd_apply] at hrr ⊢
+          by_cases hrc' : r = c
+          · simp [hrc']
+          · simp only [hrc', if_false] at hrr ⊢
+            exact hr.rfresh r hrr
+        · intro r
+          simp only [upd_apply, List.mem_append, List.mem_singleton]
+          by_cases hrc' : r = c
+          · simp [hrc']
+          · simp only [hrc', if_false, or_false]
+            exact hr.rmem r
+        · have : c ∉ s.rcreated := by
+            intro hm
+            exact (hr.rmem c).1 hm hrc
+          have this' : ∀ a ∈ s.rcreated, ¬ a = c := fun a ha hac => this (hac ▸ ha)
+          simpa [List.nodup_append, hr.rnodup] using this'
+        · intro e x r y he hf hh hy hyf
+          simp only [upd_apply] at he hy
+          by_cases hce : e = c
+          · subst hce
+            simp only [if_true, Option.some.injEq] at he
+            subst he
+            have := (newExec_body s e key n o hg (spawns_caching s key hsp) hh).1
+            rw [hsp] at this
+            simp at this
+          · simp only [hce, if_false] at he
+            by_cases hrc' : r = c
+            · subst hrc'
+              simp only [if_true, Option.some.injEq] at hy
+              subst hy
+              intro hk
+              have := h.reg e x he hf
+              rw [hk] at this
+              simp only [newRecalc] at this
+              rw [ht] at this
+              simp at this
+            · simp only [hrc', if_false] at hy
+              exact hr.excl e x r y he hf hh hy hyf
+        · intro e x r he hw
+          simp only [upd_apply] at he ⊢
+          by_cases hce : e = c
+          · subst hce
+            simp only [if_true, Option.some.injEq] at he
+            subst he
+            rcases newExec_waits s e key n o hg r hw with ⟨h1, _, h3⟩ | ⟨h1, _⟩
+            · subst h1
+              refine ⟨newRecalc s key n o, by simp, ?_, ?_, ?_⟩
+              · rw [newExec_key]; rfl
+              · rw [h3]; rfl
+              · intro hfin; rw [newExec_unfinished] at hfin; simp at hfin
+            · rw [hrt] at h1; simp at h1
+          · simp only [hce, if_false] at he
+            obtain ⟨y, hy, hrest⟩ := hr.waits e x r he hw
+            have : r ≠ c := by
+              intro hh; subst hh; rw [hrc] at hy; simp at hy
+            exact ⟨y, by simp [this, hy], hrest⟩
+        · intro r hrr
+          simp only [upd_apply] at hrr
+          by_cases hrc' : r = c
+          · exact spawns_caching s key hsp
+          · simp only [hrc', if_false] at hrr
+            exact hr.mode r hrr
+      · -- no recalculation is started
+        have hsf : spawns s key = false := by
+          cases h' : spawns s key with
+          | false => rfl
+          | true => exact absurd h' hsp
+        simp only [hsf, Bool.false_eq_true, if_false]
+        refine ⟨hr.rreg, hr.rtab, ?_, hr.rmem, hr.rnodup, ?_, ?_, hr.mode⟩
+        · intro r hrr
+          simp only [upd_apply]
+          split
+          · simp
+          · exact hr.rfresh r hrr
+        · intro e x r y he hf hh hy hyf
+          simp only [upd_apply] at he
+          by_cases hce : e = c
+          · subst hce
+            simp only [if_true, Option.some.injEq] at he
+            subst he
+            have hb := (newExec_body s e key n o hg (hr.mode r (by rw [hy]; simp)) hh).2
+            have h1 := hr.rreg r y hy hyf
+            rw [newExec_key]
+            intro hk
+            rw [← hk, hb] at h1
+            simp at h1
+          · simp only [hce, if_false] at he
+            exact hr.excl e x r y he hf hh hy hyf
+        · intro e x r he hw
+          simp only [upd_apply] at he
+          by_cases hce : e = c
+          · subst hce
+            simp only [if_true, Option.some.injEq] at he
+            subst he
+            rcases newExec_waits s e key n o hg r hw with ⟨_, h2, _⟩ | ⟨h1, h2⟩
+            · exact absurd h2 hsp
+            · obtain ⟨y, hy, hk, _⟩ := hr.rtab key r h1
+              refine ⟨y, hy, by rw [newExec_key]; exact hk, (h2 y hy).symm, ?_⟩
+              intro hfin; rw [newExec_unfinished] at hfin; simp at hfin
+          · simp only [hce, if_false] at he
+            exact hr.waits e x r he hw
+
+theorem rinv_body (s : SfSt) (hr : RInv s) (e : Nat) : RInv (stepBody s e) := by
+  unfold stepBody
+  split
+  · exact hr
+  · rename_i x hx
+    split
+    · exact hr
+    · refine ⟨hr.rreg, hr.rtab, hr.rfresh, hr.rmem, hr.rnodup, ?_, ?_, hr.mode⟩
+      · intro e' x' r y he' hf hh hy hyf
+        simp only [upd_apply] at he'
+        by_cases hee : e' = e
+        · subst hee
+          simp only [if_true, Option.some.injEq] at he'
+          subst he'
+          exact hr.excl e' x r y hx hf hh hy hyf
+        · simp only [hee, if_false] at he'
+          exact hr.excl e' x' r y he' hf hh hy hyf
+      · intro e' x' r he' hw
+        simp only [upd_apply] at he'
+        by_cases hee : e' = e
+        · subst hee
+          simp only [if_true, Option.some.injEq] at he'
+          subst he'
+          exact hr.waits e' x r hx hw
+        · simp only [hee, if_false] at he'
+          exact hr.waits e' x' r he' hw
+
+theorem blocked_false (s : SfSt) (x : Exec) (r : Nat) (y : Exec) (hw : x.waitsOn = some r) (hy : s.recalcs r = some y)
+    (hb : ¬ blocked s x = true) : y.finished = true := by
+  unfold blocked at hb
+  rw [hw] at hb
+  simp only [hy] at hb
+  cases hf : y.finished with
+  | true => rfl
+  | false => rw [hf] at hb; simp at hb
+
+theorem rinv_finish (s : SfSt) (hr : RInv s) (e : Nat) : RInv (stepFinish s e) := by
+  unfold stepFinish
+  split
+  · exact hr
+  · rename_i x hx
+    split
+    · exact hr
+    · rename_i hcond
+      have hnb : ¬ blocked s x = true := fun hb => hcond (Or.inr (Or.inr hb))
+      refine ⟨hr.rreg, hr.rtab, ?_, hr.rmem, hr.rnodup, ?_, ?_, hr.mode⟩
+      · intro r hrr hd
+        exact hr.rfresh r hrr ((deliver_none_iff _ _ _ _).1 hd)
+      · intro e' x' r y he' hf hh hy hyf
+        simp only [upd_apply] at he'
+        by_cases hee : e' = e
+        · subst hee
+          simp only [if_true, Option.some.injEq] at he'
+          subst he'
+          simp at hf
+        · simp only [hee, if_false] at he'
+          exact hr.excl e' x' r y he' hf hh hy hyf
+      · intro e' x' r he' hw
+        simp only [upd_apply] at he'
+        by_cases hee : e' = e
+        · subst hee
+          simp only [if_true, Option.some.injEq] at he'
+          subst he'
+          obtain ⟨y, hy, hk, ho, _⟩ := hr.waits e' x r hx hw
+          exact ⟨y, hy, hk, ho, fun _ => blocked_false s x r y hw hy hnb⟩
+        · simp only [hee, if_false] at he'
+          exact hr.waits e' x' r he' hw
+
+theorem rinv_cancel (s : SfSt) (hr : RInv s) (c : Nat) : RInv (stepCancel s c) := by
+  have hk : ∀ r, s.callers r ≠ none → (stepCancel s c).callers r ≠ none := by
+    intro r hrr
+    by_cases hrc : r = c
+    · subst hrc; exact (stepCancel_frame s r).2.2.2.2.2.2
+    · rw [(stepCancel_frame s c).2.2.2.2.2.1 r hrc]; exact hrr
+  obtain ⟨_, _, f3, _, _, _, _⟩ := stepCancel_frame s c
+  obtain ⟨_, _, _, _, _, p6, p7, _, p9⟩ := stepCancel_rest s c
+  refine ⟨?_, ?_, ?_, ?_, ?_, ?_, ?_, ?_⟩
+  · rw [p6, p7]; exact hr.rreg
+  · rw [p6, p7]; exact hr.rtab
+  · rw [p6]; exact fun r hrr => hk r (hr.rfresh r hrr)
+  · rw [p6, p9]; exact hr.rmem
+  · rw [p9]; exact hr.rnodup
+  · rw [p6, f3]; exact hr.excl
+  · rw [p6, f3]; exact hr.waits
+  · rw [p6, (stepCancel_frame s c).1]; exact hr.mode
+
+theorem rinv_rbody (s : SfSt) (hr : RInv s) (r : Nat) : RInv (stepRBody s r) := by
+  unfold stepRBody
+  split
+  · exact hr
+  · rename_i y hy
+    split
+    · exact hr
+    · rename_i hcond
+      have hyf : y.finished = false := by
+        cases hf : y.finished <;> simp_all
+      refine ⟨?_, ?_, ?_, ?_, hr.rnodup, ?_, ?_, ?_⟩
+      · intro r' y' hy' hf'
+        simp only [upd_apply] at hy'
+        by_cases hrr : r' = r
+        · subst hrr
+          simp only [if_true, Option.some.injEq] at hy'
+          subst hy'
+          exact hr.rreg r' y hy hyf
+        · simp only [hrr, if_false] at hy'
+          exact hr.rreg r' y' hy' hf'
+      · intro k r' hk
+        obtain ⟨y', hy', hk', hf'⟩ := hr.rtab k r' hk
+        simp only [upd_apply]
+        by_cases hrr : r' = r
+        · subst hrr
+          rw [hy] at hy'
+          simp only [Option.some.injEq] at hy'
+          subst hy'
+          exact ⟨_, if_pos rfl, hk', hf'⟩
+        · exact ⟨y', by simp [hrr, hy'], hk', hf'⟩
+      · intro r' hrr'
+        simp only [upd_apply] at hrr'
+        by_cases hrr : r' = r
+        · subst hrr; exact hr.rfresh r' (by rw [hy]; simp)
+        · simp only [hrr, if_false] at hrr'
+          exact hr.rfresh r' hrr'
+      · intro r'
+        simp only [upd_apply]
+        by_cases hrr : r' = r
+        · subst hrr
+          simp only [if_true, ne_eq, reduceCtorEq, not_false_eq_true, iff_true]
+          exact (hr.rmem r').2 (by rw [hy]; simp)
+        · simp only [hrr, if_false]
+          exact hr.rmem r'
+      · intro e x r' y' he hf hh hy' hyf'
+        simp only [upd_apply] at hy'
+        by_cases hrr : r' = r
+        · subst hrr
+          simp only [if_true, Option.some.injEq] at hy'
+          subst hy'
+          exact hr.excl e x r' y he hf hh hy hyf
+        · simp only [hrr, if_false] at hy'
+          exact hr.excl e x r' y' he hf hh hy' hyf'
+      · intro e x r' he hw
+        obtain ⟨y', hy', hrest⟩ := hr.waits e x r' he hw
+        simp only [upd_apply]
+        by_cases hrr : r' = r
+        · subst hrr
+          rw [hy] at hy'
+          simp only [Option.some.injEq] at hy'
+          subst hy'
+          exact ⟨_, if_pos rfl, hrest⟩
+        · exact ⟨y', by simp [hrr, hy'], hrest⟩
+      · intro r' hrr'
+        simp only [upd_apply] at hrr'
+        by_cases hrr : r' = r
+        · subst hrr; exact hr.mode r' (by rw [hy]; simp)
+        · simp only [hrr, if_false] at hrr'
+          exact hr.mode r' hrr'
+
+theorem rinv_rfinish (s : SfSt) (hr : RInv s) (r : Nat) : RInv (stepRFinish s r) := by
+  unfold stepRFinish
+  split
+  · exact hr
+  · rename_i y hy
+    split
+    · exact hr
+    · rename_i hcond
+      have hyf : y.finished = false := by
+        cases hf : y.finished <;> simp_all
+      have hreg := hr.rreg r y hy hyf
+      refine ⟨?_, ?_, ?_, ?_, hr.rnodup, ?_, ?_, ?_⟩
+      · intro r' y' hy' hf'
+        simp only [upd_apply] at hy' ⊢
+        by_cases hrr : r' = r
+        · subst hrr
+          simp only [if_true, Option.some.injEq] at hy'
+          subst hy'
+          simp at hf'
+        · simp only [hrr, if_false] at hy'
+          have h1 := hr.rreg r' y' hy' hf'
+          by_cases hk : y'.key = y.key
+          · rw [hk, hreg] at h1
+            simp only [Option.some.injEq] at h1
+            exact absurd h1.symm hrr
+          · simp [hk, h1]
+      · intro k r' hk
+        simp only [upd_apply] at hk ⊢
+        by_cases hkk : k = y.key
+        · simp [hkk] at hk
+        · simp only [hkk, if_false] at hk
+          obtain ⟨y', hy', hk', hf'⟩ := hr.rtab k r' hk
+          have : r' ≠ r := by
+            intro hh; subst hh; rw [hy] at hy'
+            simp only [Option.some.injEq] at hy'
+            subst hy'; exact hkk hk'.symm
+          exact ⟨y', by simp [this, hy'], hk', hf'⟩
+      · intro r' hrr'
+        simp only [upd_apply] at hrr'
+        by_cases hrr : r' = r
+        · subst hrr; exact hr.rfresh r' (by rw [hy]; simp)
+        · simp only [hrr, if_false] at hrr'
+          exact hr.rfresh r' hrr'
+      · intro r'
+        simp only [upd_apply]
+        by_cases hrr : r' = r
+        · subst hrr
+          simp only [if_true, ne_eq, reduceCtorEq, not_false_eq_true, iff_true]
+          exact (hr.rmem r').2 (by rw [hy]; simp)
+        · simp only [hrr, if_false]
+          exact hr.rmem r'
+      · intro e x r' y' he hf hh hy' hyf'
+        simp only [upd_apply] at hy'
+        by_cases hrr : r' = r
+        · subst hrr
+          simp only [if_true, Option.some.injEq] at hy'
+          subst hy'
+          simp at hyf'
+        · simp only [hrr, if_false] at hy'
+          exact hr.excl e x r' y' he hf hh hy' hyf'
+      · intro e x r' he hw
+        obtain ⟨y', hy', hk, ho, hfin⟩ := hr.waits e x r' he hw
+        simp only [upd_apply]
+        by_cases hrr : r' = r
+        · subst hrr
+          rw [hy] at hy'
+          simp only [Option.some.injEq] at hy'
+          subst hy'
+          exact ⟨_, if_pos rfl, hk, ho, fun _ => rfl⟩
+        · exact ⟨y', by simp [hrr, hy'], hk, ho, hfin⟩
+      · intro r' hrr'
+        simp only [upd_apply] at hrr'
+        by_cases hrr : r' = r
+        · subst hrr; exact hr.mode r' (by rw [hy]; simp)
+        · simp only [hrr, if_false] at hrr'
+          exact hr.mode r' hrr'
+
+theorem rinv_step (s : SfSt) (h : Inv s) (hr : RInv s) (hg : s.guarded = true) (a : Act) : RInv (step s a) := by
+  cases a with
+  | call c key n o => exact rinv_call s h hr hg c key n o
+  | bodyStep e => exact rinv_body s hr e
+  | finish e => exact rinv_finish s hr e
+  | cancel c => exact rinv_cancel s hr c
+  | tick d => exact ⟨hr.rreg, hr.rtab, hr.rfresh, hr.rmem, hr.rnodup, hr.excl, hr.waits, hr.mode⟩
+  | rstep r => exact rinv_rbody s hr r
+  | rfinish r => exact rinv_rfinish s hr r
+
+theorem rinv_run (s : SfSt) (h : Inv s) (hr : RInv s) (hg : s.guarded = true) (tr : List Act) : RInv (run s tr) := by
+  induction tr generalizing s with
+  | nil => exact hr
+  | cons a tr ih =>
+    exact ih (step s a) (inv_step s h a) (rinv_step s h hr hg a) (by rw [guarded_step]; exact hg)
+
+/-- running recalculations of one key are unique -/
+theorem recalculating_unique (s : SfSt) (hr : RInv s) (key r1 r2 : Nat)
+    (h1 : Recalculating s r1 key) (h2 : Recalculating s r2 key) : r1 = r2 := by
+  obtain ⟨y1, hy1, hk1, hf1⟩ := h1
+  obtain ⟨y2, hy2, hk2, hf2⟩ := h2
+  have a := hr.rreg r1 y1 hy1 hf1
+  have b := hr.rreg r2 y2 hy2 hf2
+  rw [hk1] at a
+  rw [hk2, a] at b
+  simpa using b
+
+theorem recalcRunningB_iff (s : SfSt) (key r : Nat) : recalcRunningB s key r = true ↔ Recalculating s r key := by
+  unfold recalcRunningB Recalculating
+  split
+  · rename_i y hy
+    constructor
+    · intro hb
+      simp only [Bool.and_eq_true, beq_iff_eq, Bool.not_eq_true'] at hb
+      exact ⟨y, hy, hb.1, hb.2⟩
+    · rintro ⟨y', hy', hk, hf⟩
+      rw [hy] at hy'
+      simp only [Option.some.injEq] at hy'
+      subst hy'
+      simp [hk, hf]
+  · rename_i hy
+    constructor
+    · intro hb; simp at hb
+    · rintro ⟨y', hy', _⟩
+      rw [hy] at hy'; simp at hy'
+
+/-- **one body per key**: bodies run by executions and by recalculations together -/
+theorem body_count_le_one (s : SfSt) (h : Inv s) (hr : RInv s) (key : Nat) : bodyRunningCount s key ≤ 1 := by
+  unfold bodyRunningCount
+  have h1 : (s.created.filter (bodyRunningB s key)).length ≤ 1 := by
+    apply filter_length_le_one _ _ h.nodup
+    intro a c _ _ ha hc
+    exact inflight_unique _ h key a c ((inFlightB_iff _ _ _).1 (bodyRunningB_imp _ _ _ ha))
+      ((inFlightB_iff _ _ _).1 (bodyRunningB_imp _ _ _ hc))
+  have h2 : (s.rcreated.filter (recalcRunningB s key)).length ≤ 1 := by
+    apply filter_length_le_one _ _ hr.rnodup
+    intro a c _ _ ha hc
+    exact recalculating_unique s hr key a c ((recalcRunningB_iff _ _ _).1 ha) ((recalcRunningB_iff _ _ _).1 hc)
+  by_cases hz : s.rcreated.filter (recalcRunningB s key) = []
+  · rw [hz]; simpa using h1
+  · -- a recalculation of the key is running: no execution runs a body for it
+    have hne : ∃ r, r ∈ s.rcreated.filter (recalcRunningB s key) := by
+      cases hl : s.rcreated.filter (recalcRunningB s key) with
+      | nil => exact absurd hl hz
+      | cons r _ => exact ⟨r, by simp⟩
+    obtain ⟨r, hrm⟩ := hne
+    obtain ⟨y, hy, hyk, hyf⟩ := (recalcRunningB_iff s key r).1 (List.mem_filter.1 hrm).2
+    have hzero : s.created.filter (bodyRunningB s key) = [] := by
+      rw [List.filter_eq_nil_iff]
+      intro e _ hb
+      unfold bodyRunningB at hb
+      split at hb
+      · rename_i x hx
+        simp only [Bool.and_eq_true, beq_iff_eq, Bool.not_eq_true'] at hb
+        exact hr.excl e x r y hx hb.1.2 hb.2 hy hyf (by rw [hb.1.1, hyk])
+      · simp at hb
+    rw [hzero]
+    simpa using h2
+
 /-! ### time: `tick` is a stutter step of single-flight -/
 
 /-- a time step moves the clock and nothing else -/
@@ -840,18 +1596,20 @@ theorem tick_frame (s : SfSt) (d : Nat) :
     (step s (.tick d)).caching = s.caching ∧ (step s (.tick d)).ttl = s.ttl ∧ (step s (.tick d)).table = s.table ∧
     (step s (.tick d)).execs = s.execs ∧ (step s (.tick d)).callers = s.callers ∧
     (step s (.tick d)).cached = s.cached ∧ (step s (.tick d)).created = s.created ∧
-    (step s (.tick d)).now = s.now + d := ⟨rfl, rfl, rfl, rfl, rfl, rfl, rfl, rfl⟩
+    (step s (.tick d)).now = s.now + d ∧ Rest (step s (.tick d)) s :=
+  ⟨rfl, rfl, rfl, rfl, rfl, rfl, rfl, rfl, rest_refl s⟩
 
 theorem run_ticks_frame (s : SfSt) (ds : List Nat) :
     (run s (ds.map Act.tick)).caching = s.caching ∧ (run s (ds.map Act.tick)).ttl = s.ttl ∧
     (run s (ds.map Act.tick)).table = s.table ∧ (run s (ds.map Act.tick)).execs = s.execs ∧
     (run s (ds.map Act.tick)).callers = s.callers ∧ (run s (ds.map Act.tick)).cached = s.cached ∧
-    (run s (ds.map Act.tick)).created = s.created ∧ (run s (ds.map Act.tick)).now = s.now + ds.sum := by
+    (run s (ds.map Act.tick)).created = s.created ∧ (run s (ds.map Act.tick)).now = s.now + ds.sum ∧
+    Rest (run s (ds.map Act.tick)) s := by
   induction ds generalizing s with
-  | nil => exact ⟨rfl, rfl, rfl, rfl, rfl, rfl, rfl, by simp [run]⟩
+  | nil => exact ⟨rfl, rfl, rfl, rfl, rfl, rfl, rfl, by simp [run], rest_refl s⟩
   | cons d ds ih =>
-    obtain ⟨h1, h2, h3, h4, h5, h6, h7, h8⟩ := ih (step s (.tick d))
-    refine ⟨h1, h2, h3, h4, h5, h6, h7, ?_⟩
+    obtain ⟨h1, h2, h3, h4, h5, h6, h7, h8, h9⟩ := ih (step s (.tick d))
+    refine ⟨h1, h2, h3, h4, h5, h6, h7, ?_, h9⟩
     show (run (step s (.tick d)) (ds.map Act.tick)).now = _
     rw [h8, List.sum_cons]
     show s.now + d + ds.sum = _
@@ -864,7 +1622,7 @@ def Act.isTick : Act → Bool
 /-- the trace with every time step removed -/
 def untimed (tr : List Act) : List Act := tr.filter fun a => !a.isTick
 
-/-- two states that differ at most in the clock -/
+/-- two states that differ at most in the clock, and in which no recalculation exists (there is none without `early`) -/
 structure SameButClock (s1 s2 : SfSt) : Prop where
   caching : s1.caching = s2.caching
   ttl : s1.ttl = s2.ttl
@@ -873,6 +1631,8 @@ structure SameButClock (s1 s2 : SfSt) : Prop where
   callers : s1.callers = s2.callers
   cached : s1.cached = s2.cached
   created : s1.created = s2.created
+  rest : Rest s1 s2
+  norec : ∀ r, s1.recalcs r = none
 
 theorem caching_step (s : SfSt) (a : Act) : (step s a).caching = s.caching := by
   cases a with
@@ -896,17 +1656,27 @@ theorem caching_step (s : SfSt) (a : Act) : (step s a).caching = s.caching := by
     · split <;> rfl
   | cancel c => exact (stepCancel_frame s c).1
   | tick d => rfl
+  | rstep r => exact (stepRBody_frame s r).2.2.2.2.1
+  | rfinish r => exact (stepRFinish_frame s r).2.2.2.2
 
-theorem newExec_bare (s : SfSt) (h : s.caching = false) (key n : Nat) (o : Outcome) :
-    newExec s key n o = { key := key, remaining := n, outcome := o, finished := false, hit := false } := by
-  unfold newExec lookupCached
+theorem look_bare (s : SfSt) (h : s.caching = false) (key : Nat) : look s key = .off := by
+  unfold look
   simp [h]
+
+theorem spawns_bare (s : SfSt) (h : s.caching = false) (key : Nat) : spawns s key = false := by
+  unfold spawns
+  rw [look_bare s h]
+
+theorem newExec_bare (s : SfSt) (h : s.caching = false) (c key n : Nat) (o : Outcome) :
+    newExec s c key n o = { key := key, remaining := n, outcome := o, finished := false, hit := false, waitsOn := none } := by
+  unfold newExec
+  rw [look_bare s h]
 
 /-- without a cache decorator no action reads the clock: the same action keeps two states that differ only in
 the clock that way -/
 theorem sbc_step (s1 s2 : SfSt) (h : SameButClock s1 s2) (hb : s1.caching = false) (a : Act) :
     SameButClock (step s1 a) (step s2 a) := by
-  obtain ⟨hca, htt, ht, he, hcl, hcd, hcr⟩ := h
+  obtain ⟨hca, htt, ht, he, hcl, hcd, hcr, hr, hn⟩ := h
   have hb2 : s2.caching = false := by rw [← hca]; exact hb
   cases a with
   | call c key n o =>
@@ -914,36 +1684,39 @@ theorem sbc_step (s1 s2 : SfSt) (h : SameButClock s1 s2) (hb : s1.caching = fals
     unfold stepCall
     rw [← hcl, ← ht]
     cases s1.callers c with
-    | some _ => exact ⟨hca, htt, ht, he, hcl, hcd, hcr⟩
+    | some _ => exact ⟨hca, htt, ht, he, hcl, hcd, hcr, hr, hn⟩
     | none =>
       cases s1.table key with
-      | some e => constructor <;> first | assumption | rfl
+      | some e => dsimp only; exact ⟨hca, htt, rfl, he, rfl, hcd, hcr, hr, hn⟩
       | none =>
         dsimp only
-        rw [newExec_bare s1 hb, newExec_bare s2 hb2]
-        constructor <;> first | assumption | rfl | (dsimp only; rw [he]) | (dsimp only; rw [hcr])
+        rw [newExec_bare s1 hb, newExec_bare s2 hb2, spawns_bare s1 hb, spawns_bare s2 hb2]
+        refine ⟨hca, htt, rfl, ?_, rfl, hcd, ?_, hr, hn⟩
+        · dsimp only; rw [he]
+        · dsimp only; rw [hcr]
   | bodyStep e =>
     show SameButClock (stepBody s1 e) (stepBody s2 e)
     unfold stepBody
     rw [← he]
     cases s1.execs e with
-    | none => exact ⟨hca, htt, ht, he, hcl, hcd, hcr⟩
+    | none => exact ⟨hca, htt, ht, he, hcl, hcd, hcr, hr, hn⟩
     | some x =>
       dsimp only
       split
-      · exact ⟨hca, htt, ht, he, hcl, hcd, hcr⟩
-      · constructor <;> first | assumption | rfl
+      · exact ⟨hca, htt, ht, he, hcl, hcd, hcr, hr, hn⟩
+      · exact ⟨hca, htt, ht, rfl, hcl, hcd, hcr, hr, hn⟩
   | finish e =>
     show SameButClock (stepFinish s1 e) (stepFinish s2 e)
     unfold stepFinish
     rw [← he]
     cases s1.execs e with
-    | none => exact ⟨hca, htt, ht, he, hcl, hcd, hcr⟩
+    | none => exact ⟨hca, htt, ht, he, hcl, hcd, hcr, hr, hn⟩
     | some x =>
       dsimp only
+      rw [← blocked_congr s1 s2 hr x]
       split
-      · exact ⟨hca, htt, ht, he, hcl, hcd, hcr⟩
-      · refine ⟨hca, htt, ?_, rfl, ?_, ?_, hcr⟩
+      · exact ⟨hca, htt, ht, he, hcl, hcd, hcr, hr, hn⟩
+      · refine ⟨hca, htt, ?_, rfl, ?_, ?_, hcr, hr, hn⟩
         · dsimp only; rw [ht]
         · dsimp only; rw [hcl]
         · dsimp only
@@ -954,14 +1727,24 @@ theorem sbc_step (s1 s2 : SfSt) (h : SameButClock s1 s2) (hb : s1.caching = fals
     unfold stepCancel
     rw [← hcl]
     cases s1.callers c with
-    | none => constructor <;> first | assumption | rfl
+    | none => exact ⟨hca, htt, ht, he, rfl, hcd, hcr, hr, hn⟩
     | some cl =>
       obtain ⟨e, st⟩ := cl
       cases st with
-      | waiting => constructor <;> first | assumption | rfl
-      | got o => exact ⟨hca, htt, ht, he, hcl, hcd, hcr⟩
-      | cancelled => exact ⟨hca, htt, ht, he, hcl, hcd, hcr⟩
-  | tick d => exact ⟨hca, htt, ht, he, hcl, hcd, hcr⟩
+      | waiting => exact ⟨hca, htt, ht, he, rfl, hcd, hcr, hr, hn⟩
+      | got o => exact ⟨hca, htt, ht, he, hcl, hcd, hcr, hr, hn⟩
+      | cancelled => exact ⟨hca, htt, ht, he, hcl, hcd, hcr, hr, hn⟩
+  | tick d => exact ⟨hca, htt, ht, he, hcl, hcd, hcr, hr, hn⟩
+  | rstep r =>
+    show SameButClock (stepRBody s1 r) (stepRBody s2 r)
+    unfold stepRBody
+    rw [← hr.recalcs, hn r]
+    exact ⟨hca, htt, ht, he, hcl, hcd, hcr, hr, hn⟩
+  | rfinish r =>
+    show SameButClock (stepRFinish s1 r) (stepRFinish s2 r)
+    unfold stepRFinish
+    rw [← hr.recalcs, hn r]
+    exact ⟨hca, htt, ht, he, hcl, hcd, hcr, hr, hn⟩
 
 /-- for the bare decorator, removing every time step from a trace changes nothing but the clock -/
 theorem untimed_run (s1 s2 : SfSt) (h : SameButClock s1 s2) (hb : s1.caching = false) (tr : List Act) :
@@ -975,11 +1758,13 @@ theorem untimed_run (s1 s2 : SfSt) (h : SameButClock s1 s2) (hb : s1.caching = f
       rw [this, run_cons]
       cases a with
       | tick d =>
-        exact ih _ _ ⟨h.caching, h.ttl, h.table, h.execs, h.callers, h.cached, h.created⟩ hb
+        exact ih _ _ ⟨h.caching, h.ttl, h.table, h.execs, h.callers, h.cached, h.created, h.rest, h.norec⟩ hb
       | call _ _ _ _ => simp [Act.isTick] at ha
       | bodyStep _ => simp [Act.isTick] at ha
       | finish _ => simp [Act.isTick] at ha
       | cancel _ => simp [Act.isTick] at ha
+      | rstep _ => simp [Act.isTick] at ha
+      | rfinish _ => simp [Act.isTick] at ha
     | false =>
       have : untimed (a :: tr) = a :: untimed tr := by simp [untimed, ha]
       rw [this, run_cons, run_cons]
@@ -992,8 +1777,8 @@ theorem macro_run (s : SfSt) (bursts : List (List Act)) : ∃ tr, bursts.foldl m
   | nil => exact ⟨[], rfl⟩
   | cons b bs ih =>
     obtain ⟨tr, htr⟩ := ih (macroStep s b)
-    refine ⟨b ++ (run s b).created.map Act.finish ++ tr, ?_⟩
-    rw [List.foldl_cons, htr, run_append, run_append]
+    refine ⟨b ++ (run s b).rcreated.map Act.rfinish ++ (run s b).created.map Act.finish ++ tr, ?_⟩
+    rw [List.foldl_cons, htr, run_append, run_append, run_append]
     rfl
 
 end CashewsVerif.SingleFlight
